@@ -68,6 +68,112 @@ type coldTables struct {
 	V31   [][3]float32 `json:"v31"`
 	V30   [][3]float32 `json:"v30"`
 	V2    [][3]float32 `json:"v2"`
+	// single-Set neighbourhoods of a family of objects spread over the WHOLE space of each version (any
+	// representation), scored right after one another: index = ((object, metric, value), scoring method)
+	N4  []float32 `json:"n4"`
+	N31 []float32 `json:"n31"`
+	N30 []float32 `json:"n30"`
+	N2  []float32 `json:"n2"`
+}
+
+// coldFamily: F assignments over all metrics of the version, spread over the full product by a fixed
+// multiplicative sequence (deterministic: every process builds the same family).
+func coldFamily(ver *spec.Version, F int) []spec.Assignment {
+	fam := make([]spec.Assignment, F)
+	for j := range fam {
+		x := uint64(j+1) * 0x9E3779B97F4A7C15
+		a := make(spec.Assignment, len(ver.Metrics))
+		for i, m := range ver.Metrics {
+			a[i] = int8(x % uint64(len(m.Values)))
+			x /= uint64(len(m.Values))
+			if x < 64 {
+				x = x*0x9E3779B97F4A7C15 + uint64(i)
+			}
+		}
+		fam[j] = a
+	}
+	return fam
+}
+
+func coldFamilySize(tier string) int {
+	if tier == "thorough" {
+		return 16384
+	}
+	return 1024
+}
+
+// neighbourTable scores, for every object r of the family, every object that differs from r in the value of one
+// metric, in the order r, metric, value (ascending or descending): consecutive calls are on objects that differ
+// in one metric only, which is where a memo with a lossy key hands out the neighbour's result. The table layout
+// does not depend on the order of traversal.
+func neighbourTable[T comparable, P Object[T]](im *Impl[T, P], fam []spec.Assignment, order string) []float32 {
+	ver := im.Ver
+	per := 0
+	off := make([]int, len(ver.Metrics))
+	for i, m := range ver.Metrics {
+		off[i] = per
+		per += len(m.Values)
+	}
+	ns := len(im.Scores)
+	tab := make([]float32, len(fam)*per*ns)
+	s := &OS[T, P]{I: im}
+	seq := func(n int) []int {
+		x := make([]int, n)
+		for i := range x {
+			if order == "desc" {
+				x[i] = n - 1 - i
+			} else {
+				x[i] = i
+			}
+		}
+		return x
+	}
+	for _, r := range seq(len(fam)) {
+		base, err := s.Build(fam[r])
+		for _, mi := range seq(len(ver.Metrics)) {
+			m := ver.Metrics[mi]
+			for _, vi := range seq(len(m.Values)) {
+				o := base
+				at := ((r*per)+off[mi]+vi) * ns
+				if err != nil || P(&o).Set(m.Abv, m.Values[vi]) != nil {
+					for k := 0; k < ns; k++ {
+						tab[at+k] = -998
+					}
+					continue
+				}
+				for k, sf := range im.Scores {
+					var sc float64
+					if p := Safely(func() { sc = sf.F(&o) }); p != nil {
+						sc = -999
+					}
+					tab[at+k] = float32(sc)
+				}
+			}
+		}
+	}
+	return tab
+}
+
+// neighbourWhat describes entry i of a neighbour table.
+func neighbourWhat[T comparable, P Object[T]](im *Impl[T, P], fam []spec.Assignment, i int) string {
+	ver := im.Ver
+	per := 0
+	for _, m := range ver.Metrics {
+		per += len(m.Values)
+	}
+	ns := len(im.Scores)
+	k := i % ns
+	e := i / ns
+	r, x := e/per, e%per
+	for mi, m := range ver.Metrics {
+		if x < len(m.Values) {
+			a := fam[r].Clone()
+			a[mi] = int8(x)
+			return fmt.Sprintf("%s of %s (scored right after its neighbours that differ in %s only)", im.Scores[k].Name, ver.Full(a), m.Abv)
+		}
+		x -= len(m.Values)
+	}
+	return fmt.Sprintf("entry %d", i)
 }
 
 // v4 sub-lattice of the cold/warm runs: all 186,624 base classes x E in {A,U} x CR=IR=AR in {H,L}.
@@ -191,6 +297,11 @@ func C14Cold(tier, order string) {
 			})
 		})
 	}
+	F := coldFamilySize(tier)
+	out.N4 = neighbourTable(I40, coldFamily(spec.V4, F), order)
+	out.N31 = neighbourTable(I31, coldFamily(spec.V31, F), order)
+	out.N30 = neighbourTable(I30, coldFamily(spec.V30, F), order)
+	out.N2 = neighbourTable(I20, coldFamily(spec.V2, F), order)
 	out.Warm = calls()
 	json.NewEncoder(os.Stdout).Encode(out)
 	_ = gocvss40.Rating
@@ -278,6 +389,36 @@ func coldFindings(asc, desc *coldTables) (keys, whats []string, compared int) {
 	cmp3("v3.1", asc.V31, desc.V31)
 	cmp3("v3.0", asc.V30, desc.V30)
 	cmp3("v2.0", asc.V2, desc.V2)
+	cmpN := func(tag string, a, b []float32, what func(i int) string) {
+		if len(a) != len(b) {
+			add(tag+"/neighbour-table-size", fmt.Sprintf("%d entries in one process, %d in the other", len(a), len(b)))
+			return
+		}
+		for i := range a {
+			compared++
+			if a[i] != b[i] {
+				add(tag+"/depends-on-the-neighbour-scored-before", fmt.Sprintf("%s = %v when the single-metric neighbourhoods are scored in ascending order from a fresh process, %v in descending order", what(i), a[i], b[i]))
+				return
+			}
+		}
+	}
+	F := len(asc.N4)
+	_ = F
+	fam := func(ver *spec.Version, n, scores int) []spec.Assignment {
+		per := 0
+		for _, m := range ver.Metrics {
+			per += len(m.Values)
+		}
+		if per*scores == 0 {
+			return nil
+		}
+		return coldFamily(ver, n/(per*scores))
+	}
+	f4, f31, f30, f2 := fam(spec.V4, len(asc.N4), len(I40.Scores)), fam(spec.V31, len(asc.N31), len(I31.Scores)), fam(spec.V30, len(asc.N30), len(I30.Scores)), fam(spec.V2, len(asc.N2), len(I20.Scores))
+	cmpN("v4.0", asc.N4, desc.N4, func(i int) string { return neighbourWhat(I40, f4, i) })
+	cmpN("v3.1", asc.N31, desc.N31, func(i int) string { return neighbourWhat(I31, f31, i) })
+	cmpN("v3.0", asc.N30, desc.N30, func(i int) string { return neighbourWhat(I30, f30, i) })
+	cmpN("v2.0", asc.N2, desc.N2, func(i int) string { return neighbourWhat(I20, f2, i) })
 	return
 }
 
